@@ -269,7 +269,8 @@ def finish(run, prop, claims, notes, progs_by_id, coverage, level, assumptions, 
     for fid, (f, cnt) in knowns.items():
         print("KNOWN-FINDING: property=%s %s (%d observations this run)" % (prop, f["what"], cnt))
     rc = 0
-    os.makedirs(os.path.join(VERIF, "replays"), exist_ok=True)
+    replay_dir = os.environ.get("VERIF_REPLAY_DIR", os.path.join(VERIF, "replays"))
+    os.makedirs(replay_dir, exist_ok=True)
     seen = set()
     for n in violations:
         key = json.dumps(note_signature(n), sort_keys=True)
@@ -279,7 +280,7 @@ def finish(run, prop, claims, notes, progs_by_id, coverage, level, assumptions, 
         if len(seen) > 12:
             break
         h = hashlib.sha1(key.encode()).hexdigest()[:10]
-        path = os.path.join(VERIF, "replays", "%s-%s.json" % (prop, h))
+        path = os.path.join(replay_dir, "%s-%s.json" % (prop, h))
         json.dump({"property": prop, "note": n, "program": progs_by_id.get(n.get("prog"))}, open(path, "w"), indent=1)
         print("VIOLATION property=%s replay=%s" % (prop, path))
         print("  %s: %s %s" % (n.get("prog"), n["why"], json.dumps(n.get("extra"))[:300]))
@@ -299,6 +300,7 @@ def finish(run, prop, claims, notes, progs_by_id, coverage, level, assumptions, 
     cov["known_finding_notes"] = sum(c for _, c in knowns.values())
     ev = {"property_id": prop, "tier": run.tier, "seed": run.seed, "level": level, "coverage": cov,
           "assumptions": assumptions, "wall_s": round(time.time() - run.t0, 1), "violations": len(violations)}
-    os.makedirs(os.path.join(VERIF, "evidence"), exist_ok=True)
-    json.dump(ev, open(os.path.join(VERIF, "evidence", prop + ".json"), "w"), indent=1)
+    evdir = os.environ.get("VERIF_EVIDENCE_DIR", os.path.join(VERIF, "evidence"))
+    os.makedirs(evdir, exist_ok=True)
+    json.dump(ev, open(os.path.join(evdir, prop + ".json"), "w"), indent=1)
     return rc
